@@ -140,6 +140,25 @@ func c10Peer(rt *rapid.T) (pk, sk [32]byte, class string, honest bool) {
 	}
 }
 
+// c10ReusePeers draws up to two further peer keys for calls that reuse one
+// sharedKey array: the same peer again and/or a low-order point.
+func c10ReusePeers(rt *rapid.T, first [32]byte) [][32]byte {
+	var out [][32]byte
+	switch rapid.IntRange(0, 3).Draw(rt, "reusePeers") {
+	case 0:
+		var lo [32]byte
+		copy(lo[:], unhex(rapid.SampledFrom(c10LowOrder).Draw(rt, "reuseLow")))
+		out = append(out, lo)
+	case 1:
+		out = append(out, first)
+	case 2:
+		var lo [32]byte
+		copy(lo[:], unhex(rapid.SampledFrom(c10LowOrder).Draw(rt, "reuseLow")))
+		out = append(out, lo, first)
+	}
+	return out
+}
+
 func c10Box(c *ev.Collector, rt *rapid.T, msg []byte) (string, error) {
 	var skA [32]byte
 	copy(skA[:], gen.RandBytes(rt, "skA", 32))
@@ -178,7 +197,12 @@ func c10Box(c *ev.Collector, rt *rapid.T, msg []byte) (string, error) {
 		peerClass += "(libsodium-refuses)"
 	}
 
-	var k1 [32]byte
+	// The destination of Precompute holds stale bytes (or the result of an
+	// earlier call): the shared key must not depend on them.
+	k1 := stale32()
+	if rapid.Bool().Draw(rt, "k1zero") {
+		k1 = [32]byte{}
+	}
 	p, s := pkB, skA
 	box.Precompute(&k1, &p, &s)
 	if k1 != shared {
@@ -187,8 +211,18 @@ func c10Box(c *ev.Collector, rt *rapid.T, msg []byte) (string, error) {
 	if p != pkB || s != skA {
 		return peerClass, fmt.Errorf("box.Precompute modified a key")
 	}
+	// same destination variable reused for a run of calls, as in a loop over peers
+	reuse := k1
+	for i, peer := range c10ReusePeers(rt, pkB) {
+		before := reuse
+		pp := peer
+		box.Precompute(&reuse, &pp, &s)
+		if want := refnacl.BoxBeforeNM(peer, skA); reuse != want {
+			return peerClass, fmt.Errorf("box.Precompute into a reused sharedKey array (call %d, previous contents %x, peer=%x, priv=%x) = %x, crypto_box_beforenm gives %x", i+2, before, peer, skA, reuse, want)
+		}
+	}
 	if honest {
-		var k2 [32]byte
+		k2 := stale32()
 		box.Precompute(&k2, &pkA, &skB)
 		if k2 != k1 {
 			return peerClass, fmt.Errorf("box.Precompute is not symmetric: (B,a) -> %x, (A,b) -> %x (a=%x b=%x)", k1, k2, skA, skB)
@@ -408,6 +442,7 @@ func TestC10(t *testing.T) {
 	}
 
 	rapid.Check(t, func(rt *rapid.T) {
+		stc := setStale(rt)
 		fn := rapid.SampledFrom([]string{"box", "anonymous", "secretbox", "secretbox", "box", "sign", "auth"}).Draw(rt, "fn")
 		n, lc := lenMix(rt, "len", 2000, 35, 16, 32, 64)
 		msg, fc := gen.Bytes(rt, "msg", n)
@@ -443,7 +478,7 @@ func TestC10(t *testing.T) {
 		}
 		nontrivial := n > 32 || fn != "auth"
 		key := fmt.Sprintf("%s|%s|%s|%s", fn, mc, gen.LenClass(n, 64), sub)
-		c.Case(nontrivial, key, "fn="+fn, mc, lc, fc)
+		c.Case(nontrivial, key, "fn="+fn, mc, lc, fc, stc)
 		for _, part := range splitBar(sub) {
 			c.Class(fn + ":" + part)
 		}
@@ -463,7 +498,32 @@ func TestC10(t *testing.T) {
 	for i := range nonce {
 		nonce[i] = byte(19*i + 5)
 	}
+	staleSeed = 0x9e3779b97f4a7c15
 	pkA, pkB, epk := refnacl.ScalarBaseMult(skA), refnacl.ScalarBaseMult(skB), refnacl.ScalarBaseMult(esk)
+	// every low-order peer (and its top-bit alias) into a zero, a stale and a
+	// reused destination array
+	{
+		zeroShared := refnacl.HSalsa20([16]byte{}, [32]byte{}, refnacl.Sigma)
+		reused := refnacl.BoxBeforeNM(pkB, skA)
+		for _, lo := range c10LowOrder {
+			for _, top := range []byte{0, 0x80} {
+				var peer [32]byte
+				copy(peer[:], unhex(lo))
+				peer[31] |= top
+				for i, dst := range [][32]byte{{}, stale32(), reused} {
+					name := []string{"zero", "stale", "reused"}[i]
+					d := dst
+					box.Precompute(&d, &peer, &skA)
+					if d != zeroShared {
+						what := fmt.Sprintf("box.Precompute(low-order peer %x) into a %s destination (%x) = %x, crypto_box_beforenm's definition gives HSalsa20(0^32) = %x", peer, name, dst, d, zeroShared)
+						c.Violation(what, "")
+						t.Fatalf("VF-VIOLATION: property=C10 %s", what)
+					}
+					c.Case(true, fmt.Sprintf("table|loworder|%s|%d|%s", lo[:8], top, name), "table:low-order-precompute")
+				}
+			}
+		}
+	}
 	shared := refnacl.BoxBeforeNM(pkB, skA)
 	sealShared := refnacl.BoxBeforeNM(pkB, esk)
 	sealNonce := refnacl.SealNonce(epk, pkB)
